@@ -241,6 +241,24 @@ MUTANTS = [
      "        p[0] = UnrelateUsingNode(from_variable_name=p[2],\n                                 to_variable_name=p[4],\n                                 rel_id=p[6],\n                                 phrase=None,"),
     ('C07', 'sl-comment-eats-next-line', 'bridgepoint/oal.py',
      "        r'\\/\\/.*\\n'", "        r'\\/\\/.*\\n.*\\n'"),
+    ('C13', 'comment-regex-exponential-again', 'bridgepoint/oal.py',
+     "        r'/\\*([^*]|(\\*+[^*/]))*\\*+/'", "        r'/\\*([^*]|[\\r\\n]|(\\*+([^*/]|[\\r\\n])))*\\*+/'"),
+    ('C13', 'end-if-newline-not-counted', 'bridgepoint/oal.py',
+     "[Ii][Ff]\"\n        t.lexer.lineno += t.value.count('\\n')\n        t.endlineno = t.lexer.lineno\n", "[Ii][Ff]\"\n"),
+    ('C13', 'find-column-off-by-one', 'bridgepoint/oal.py',
+     "    return lexpos - lexdata.rfind('\\n', 0, lexpos)", "    return lexpos - lexdata.rfind('\\n', 0, lexpos) - 1"),
+    ('C13', 'comment-newlines-not-counted', 'bridgepoint/oal.py',
+     "        r'/\\*([^*]|(\\*+[^*/]))*\\*+/'\n        t.lexer.lineno += t.value.count('\\n')", "        r'/\\*([^*]|(\\*+[^*/]))*\\*+/'"),
+    ('C13', 'end-column-without-minus-one', 'bridgepoint/oal.py',
+     "                                             node.position.end_stream) - 1", "                                             node.position.end_stream)"),
+    ('C13', 'end-from-first-symbol', 'bridgepoint/oal.py',
+     "    _, node.position.end_stream = p.lexspan(len(p) - 1)", "    _, node.position.end_stream = p.lexspan(1)"),
+    ('C13', 'p-error-valueerror', 'bridgepoint/oal.py',
+     "            raise ParseException(\"unknown parsing error\")", "            raise ValueError(\"unknown parsing error\")"),
+    ('C13', 'grouped-expression-keeps-inner-span', 'bridgepoint/oal.py',
+     "    @track_production\n    def p_grouped_expression(self, p):", "    def p_grouped_expression(self, p):"),
+    ('C13', 'sl-comment-line-not-counted', 'bridgepoint/oal.py',
+     "        r'\\/\\/.*\\n'\n        t.lexer.lineno += t.value.count('\\n')", "        r'\\/\\/.*\\n'"),
 ]
 
 
